@@ -63,9 +63,37 @@ func (r *recorder) mergeInto(res *common.Result) {
 		}
 	}
 	for _, v := range r.viols {
-		res.Violate(v)
+		violate(res, v)
 	}
 	res.Notes = append(res.Notes, r.notes...)
+}
+
+// violate records a finding.  On the final result it keeps at most three witnesses per oracle
+// and separate budgets for the two kinds, so that findings of the direct oracles (failing
+// inputs) are never crowded out by model/implementation disagreements recorded earlier.
+func violate(s sink, v common.Violation) {
+	res, ok := s.(*common.Result)
+	if !ok {
+		s.Violate(v)
+		return
+	}
+	const maxImpl, maxCorr = 12, 8
+	same, kind := 0, 0
+	for _, o := range res.Violations {
+		if o.Key == v.Key && o.Kind == v.Kind {
+			return
+		}
+		if o.Kind == v.Kind {
+			kind++
+			if o.Oracle == v.Oracle {
+				same++
+			}
+		}
+	}
+	if same >= 3 || (v.Kind == "impl-violation" && kind >= maxImpl) || (v.Kind != "impl-violation" && kind >= maxCorr) {
+		return
+	}
+	res.Violations = append(res.Violations, v)
 }
 
 // parallelUnits runs body(shard, unit) for unit = order[0], order[1], ... on nshards goroutines
